@@ -4,4 +4,4 @@ import json, subprocess, sys
 rnd, pid, name, pkg, rx, check, ft, note, needs = sys.argv[1:10]
 det = {'check': check, 'tier': 'quick', 'result': 'VIOLATION', 'first_try': ft == 'y', 'round': int(rnd), 'note': note,
        'run': f'selftest/run.py --patch seeded/{name}/patch.diff --props {check.split()[0]}'}
-subprocess.check_call(['/verif/tools/store_seed.py', f'/tmp/seed{rnd}-{pid}', name, pid, pkg, rx, json.dumps(det), needs])
+subprocess.check_call(['/verif/tools/store_seed.py', f'/tmp/seed{rnd}-{pid}', name, pid[:3], pkg, rx, json.dumps(det), needs])
